@@ -47,6 +47,7 @@ def project(cs, evs, metas):
     waiting_pre = False
     pre_abort = None
     menu_open = False
+    was_isearch = False
     nread = 0
     for e in evs:
         if e["ev"] == "read" and e["bytes"] == [0x1c]:
@@ -54,6 +55,7 @@ def project(cs, evs, metas):
             waiting_pre = True
             line0 = None
             nread = 0
+            was_isearch = False
         elif e["ev"] == "read":
             nread += 1
         elif e["ev"] == "wait":
@@ -63,6 +65,18 @@ def project(cs, evs, metas):
             # only the waits that follow the menu keys: the last key of the word is an ordinary command
             # (typing, deleting, accepting) whose own effect on the buffer is not this property's business
             # ... and only while the completion menu is active (without candidates the same keys are ordinary commands)
+            if line0 is not None and e["local"] == "isearch":
+                # the menu's own incremental search is open: the API shows its minibuffer; the line is judged when it is back
+                was_isearch = True
+                continue
+            if line0 is not None and was_isearch and exp < len(metas) and nread < len(metas[exp]["keys"]):
+                # back from the menu's search (left without typing in it): the line is the one the menu had, whether the menu
+                # is still open or not
+                was_isearch = False
+                out.append(({"ev": "shown", "line0": line0, "cur0": cur0, "cands": metas[exp]["cands"], "line": e["line"]}, {"meta": metas[exp], "s": 0}))
+                if e["local"] != "menu-select":
+                    line0 = None
+                continue
             if line0 is not None and exp < len(metas) and nread < len(metas[exp]["keys"]) and e["local"] == "menu-select":
                 out.append(({"ev": "shown", "line0": line0, "cur0": cur0, "cands": metas[exp]["cands"], "line": e["line"]}, {"meta": metas[exp], "s": 0}))
             elif line0 is not None and not waiting_pre and e["local"] != "menu-select":
@@ -113,7 +127,11 @@ def run(rep, tier, seed):
         cur = rng.choice([len(line), len(line), rng.randint(0, len(line))])
         cset = rng.choice(CANDSETS)
         nkeys = rng.randint(0, 4)
-        ks = [b"\t"] + [rng.choice(MENU_KEYS) for _ in range(nkeys)] + [rng.choice(END_KEYS)]
+        ks = [b"\t"] + [rng.choice(MENU_KEYS) for _ in range(nkeys)]
+        if rng.random() < 0.15:
+            # the menu's own incremental search opened on a selected candidate and left at once (the list is built again)
+            ks += [b"\x06", rng.choice([b"\x07", b"\x1b"])] + [rng.choice(MENU_KEYS) for _ in range(rng.randint(0, 2))]
+        ks.append(rng.choice(END_KEYS))
         exps.append((line, cur, cset, ks))
     ci = 0
     # one candidate set / option set per case (the completer is per Shell)
